@@ -46,7 +46,7 @@ ROUTINES = {
     "jq255e": ["set_mul_add_mulgen_vartime", "set_mul128_add_mulgen_vartime"],
     "gls254": ["set_mul_add_mulgen_vartime", "set_mul64mu_add_mulgen_vartime"],
 }
-QUICK = ["ed25519", "p256", "jq255s"]
+QUICK = ["ed25519", "p256"]
 NCHUNK = 16
 
 
@@ -269,6 +269,10 @@ def task_chunk(name, fn, lo, hi, L):
 
 
 def work(task):
+    if task[0] == "recoder":
+        from engines.polyid.recoders import NAFS, recoder_task
+        _, name, fn = task
+        return recoder_task(MIR, name, fn, NAFS[name][fn], Z3_TIMEOUT_MS)
     name, fn, lo, hi, L = task
     try:
         return task_chunk(name, fn, lo, hi, L)
@@ -367,7 +371,45 @@ def run(tier, only=None):
             mine.append(len(tasks))
             tasks.append(t)
         meta[(c, fn)] = (o, mine, L)
+    # the wNAF recoders themselves (branch-free integer code)
+    from engines.polyid.recoders import NAFS, native_recoder_check, scalar_order
+    rec_meta = []
+    for c in names:
+        for fn, spec in NAFS.get(c, {}).items():
+            if fsel and fn not in fsel:
+                continue
+            ro = Obligation("%s.%s:contract" % (c, fn), "P", [],
+                            "all arguments of the type" + ((" below %#x" % spec.max_value) if spec.max_value else "") +
+                            (" (scalars: all values below the group order)" if spec.arg == "scalar" else ""),
+                            "every digit is 0 or odd with |d| <= 15, sum d_i 2^i = argument, nothing is left after the "
+                            "last digit; decided per loop iteration from an arbitrary state inside the invariant. "
+                            + spec.note)
+            ro.hint = dict(curve=c, func=fn, recoder=True)
+            ro.candidate = False
+            obs.append(ro)
+            rec_meta.append((ro, len(tasks), c, fn, spec))
+            tasks.append(("recoder", c, fn))
     res = pmap(work, tasks, nproc=NCPU, timeout=220 if tier == "quick" else 1700) if tasks else []
+    for ro, ti, c, fn, spec in rec_meta:
+        stt, val = res[ti]
+        if stt != "ok":
+            ro.unknown("%s: %s" % (stt, str(val)[:300]))
+            if stt == "err":
+                merr = merr or "recoder task %s.%s: %s" % (c, fn, str(val)[:400])
+            continue
+        ro.functions = val.get("fns") or []
+        solver = "%s (unsat on %d bit-vector queries over %d iterations)" % (Z3_VERSION, val["queries"],
+                                                                            val["iterations"])
+        ro.witness_n = val.get("witness_n")
+        if val["status"] == "ok":
+            if val["iterations"] < 10 or val["queries"] < 10:
+                merr = merr or "recoder %s.%s: vacuous run" % (c, fn)
+            ro.ok(solver, val["secs"], val["queries"])
+        elif val["status"] == "fail":
+            ro.unknown("candidate: " + "; ".join(val["detail"]), solver, val["secs"], val["queries"])
+            ro.candidate = True
+        else:
+            ro.unknown("; ".join(val["detail"]) or val["status"], solver, val["secs"], val["queries"])
     for (c, fn), (o, idxs, L) in meta.items():
         fails, unk, secs, q, paths, cols, fns = [], [], 0.0, 0, 0, set(), set()
         init = None
@@ -420,8 +462,28 @@ def run(tier, only=None):
     rng = random.Random(SEED or 20261005)
     native = {"checked": 0, "failed": 0, "error": rp.error}
     if rp.exe:
+        for ro, ti, c, fn, spec in rec_meta:
+            try:
+                n, mism, err = native_recoder_check(K4.run_lines, rp, c, fn, spec, scalar_order(MIR, c),
+                                                    [getattr(ro, "witness_n", None)], rng)
+            except Exception as e:  # noqa
+                n, mism, err = 0, None, "native check error: %s" % e
+            native["checked"] += n
+            if mism is not None:
+                native["failed"] += 1
+                if ro.verdict == "discharged":
+                    merr = merr or "native disagreement on a discharged obligation %s: %r" % (ro.name, mism)
+                else:
+                    ro.fail(mism, ro.solver, ro.seconds, ro.queries)
+            elif ro.verdict != "discharged":
+                if err:
+                    ro.reason += " | native replay unavailable: %s" % err[:200]
+                elif ro.candidate:
+                    ro.reason += " | native replay of %d arguments meets the contract" % n
         for o in obs:
             h = o.hint
+            if h.get("recoder"):
+                continue
             try:
                 n, mism, err = native_check(rp, h["curve"], h["func"], rng, 6 if o.verdict == "discharged" else 24)
             except Exception as e:  # noqa
@@ -430,7 +492,14 @@ def run(tier, only=None):
             if mism is not None:
                 native["failed"] += 1
                 if o.verdict == "discharged":
-                    merr = merr or "native disagreement on a discharged obligation %s: %r" % (o.name, mism)
+                    # the loop is proved relative to the recoders' contract: a native failure is
+                    # explained when a recoder of that curve violates its contract
+                    if not any(x.verdict == "violated" and x.hint.get("recoder") and x.hint["curve"] == h["curve"]
+                               for x in obs):
+                        merr = merr or "native disagreement on a discharged obligation %s: %r" % (o.name, mism)
+                    else:
+                        o.desc += (" [relative to the recoders' contract: natively %s(u=%s) is wrong because of the "
+                                   "violated recoder contract reported separately]" % (h["func"], mism.get("u")))
                 else:
                     o.fail(mism, o.solver, o.seconds, o.queries)
             elif o.verdict != "discharged":
@@ -479,6 +548,18 @@ def replay(path):
         return 2
     r = K4.run_lines(rp, [req])[0]
     name = req.split()[0]
+    if " recode:" in req:
+        from engines.polyid.recoders import NAFS, reference_digits_ok
+        fn = req.split()[1].split(":", 1)[1]
+        if r[0] != "ok":
+            print("REPRODUCED: %r" % (r[:1],))
+            return 1
+        ok, why = reference_digits_ok(NAFS[name][fn], int(model["argument"], 16), r[2])
+        if ok:
+            print("NOT REPRODUCED: the digits meet the contract")
+            return 0
+        print("REPRODUCED: property=C10 key=%s (%s)" % (model.get("key"), why))
+        return 1
     m = MODELS[K4.CURVES[name]["model"]]
     if r[0] == "panic":
         print("REPRODUCED: native panic")
